@@ -342,6 +342,15 @@ def policy_script(q, i, seed, mode):
         # tunnels of different users following each other on one gateway with the same connection identifier: what a
         # tunnel is allowed does not depend on who used the identifier before
         tun["cid"] = "{6f1c7a52-0000-4000-8000-%012d}" % (h % 2)
+    if mode == "addr" and transport == "legacy" and h % 4 in (1, 2):
+        # the two requests of a legacy connection come from different client addresses: the address that counts is the one
+        # the packets (and the access cookie in them) arrive from, i.e. the RDG_IN_DATA request's.  The RDG_OUT_DATA
+        # request comes from the address the token was issued to, or from a third one
+        tun["outElsewhere"] = True
+        if h % 4 == 1:
+            tun["outIP"], tun["outXFF"] = tun.get("mintIP", ""), tun.get("mintXFF", "").split("\n")[0]
+        else:
+            tun["outIP"], tun["outXFF"] = "127.0.0.9", "172.16.0.9"
     return {"id": "%s%05d" % (mode[0], i), "origin": "policy:%s" % mode, "cfg": cfg, "transport": transport, "tun": tun, "steps": steps}
 
 
